@@ -9,7 +9,7 @@ use winnow::error::StrContext;
 pub use winnow::{
     ascii::{alpha1, digit1, multispace0, multispace1},
     combinator::{
-        alt, cut_err, delimited, eof, fail, preceded, repeat, repeat_till, separated,
+        alt, cut_err, delimited, eof, fail, peek, preceded, repeat, repeat_till, separated,
         separated_pair, terminated,
     },
     error::{ContextError, StrContext::Label, StrContextValue},
@@ -23,6 +23,13 @@ pub fn expected(reason: &'static str) -> StrContext {
 
 pub fn label(name: &'static str) -> StrContext {
     StrContext::Label(name)
+}
+
+/// End of a primary: a test, action or option (with its arguments) must be followed by a blank, a
+/// closing parenthesis or the end of the input. Without this check a longer word such as
+/// `-empty-print` or `-uid 5-print` would silently be split into two primaries.
+pub fn boundary(input: &mut &str) -> PResult<()> {
+    peek(alt((multispace1.void(), ")".void(), eof.void()))).parse_next(input)
 }
 
 /// Trait used to add the ability to parse arbitrary types
